@@ -304,9 +304,10 @@ pub fn confirm_canon(n: usize, kind: u8, count: usize) {
             *w = st & low_mask(n);
         }
         let f = crate::Lut::from_blocks(n, &b);
-        let mut best = f.clone();
         let ps: &[Vec<u8>] = if kind == 1 { std::slice::from_ref(&id) } else { &all };
         let mmax: u32 = if kind == 0 { 1 } else { 1u32 << (n + 1) };
+        // brute-force orbit minimum of the base function ...
+        let mut best = f.clone();
         for p in ps {
             for m in 0..mmax {
                 let g = crate::Lut::from_blocks(n, &apply_multi(&b, n, p, m));
@@ -315,12 +316,21 @@ pub fn confirm_canon(n: usize, kind: u8, count: usize) {
                 }
             }
         }
-        let c = match kind {
-            0 => f.p_canonization().0,
-            1 => f.n_canonization().0,
-            _ => f.npn_canonization().0,
-        };
-        assert!(c == best, "canonization of {} is {} but the orbit minimum is {}", f, c, best);
+        // ... and ORBIT SWEEP: every member h = g.best of the orbit must canonize back to `best`.  For a
+        // base function without symmetries every h needs a different group element to reach the minimum,
+        // so a single group element missed by the walk shows up on exactly one h.
+        let bb: Vec<u64> = best.blocks().to_vec();
+        for p in ps {
+            for m in 0..mmax {
+                let h = crate::Lut::from_blocks(n, &apply_multi(&bb, n, p, m));
+                let c = match kind {
+                    0 => h.p_canonization().0,
+                    1 => h.n_canonization().0,
+                    _ => h.npn_canonization().0,
+                };
+                assert!(c == best, "canonization of {} is {} but the orbit minimum is {}", h, c, best);
+            }
+        }
     }
 }
 
